@@ -27,6 +27,20 @@ CHECKS = {
         "DuckDB/SQLite are the reference; three known findings are excluded by construction and counted (DISTINCT + ORDER BY; the two optimizer findings execute() inherits).",
         "DESIGN.md §C11",
     ),
+    "C04": (
+        "bounded-exhaustive enumeration (adversarial alphabet^<=2, thorough ^<=3, x 34 dialects) + property-based testing (Hypothesis mixed texts x literal kinds x options); oracle: the dialect's own tokenizer must return exactly one token with the same value",
+        "Exhaustive over every value of length <=2 (thorough <=3 over a reduced alphabet) from an alphabet containing every delimiter/escape/comment marker of all dialects, for string literals and quoted identifiers in each dialect; "
+        "random longer values for National/Raw strings, auto-quoted identifiers, builder-API injection forms (same token-type sequence as with a harmless value) and comments (token stream unchanged; none with comments=False).",
+        "The dialect's tokenizer is the judge, as the property states. Two known findings are excluded by construction (Athena strings with backslash; user text equal to the line-break sentinel under pretty=True).",
+        "DESIGN.md §C04",
+    ),
+    "C13": (
+        "property-based testing (Hypothesis re-spaced / commented / multi-byte / token-mutated statements x dialects) with an independent reference position model computed from offsets",
+        "Each generated text is tokenized in 4 drawn dialects: order, bounds, non-overlap, whitespace-or-comment gaps, (line, col) of every token against a reference computed from its end offset (LF, CR, CRLF), VAR lexeme identity; "
+        "ParseError entries must point at a token and quote a contiguous slice whose highlight is that token; TokenError start/end select the quoted snippet; Identifier meta positions select a lexeme naming the node.",
+        "Token.line/col describe the token's last character and Token.end is inclusive. Which token a ParseError should blame is not decided (only that it is a token and that the snippet matches it).",
+        "DESIGN.md §C13",
+    ),
     "C06": (
         "property-based testing (Hypothesis, typed expression grammar) with a truth-table differential oracle on SQLite, per-rule runtime observer",
         "Generated-input search: thousands of well-typed boolean/arithmetic expressions per run, each compared with its simplify()/normalize() result "
